@@ -5,5 +5,5 @@ Extraction Language OCaml.
 Extraction "C19_model.ml"
   N.add N.mul N.div_eucl N.ltb N.leb N.eqb N.min len
   session_of_stream uni_header bidi_header wb_of wb_send wb_chunk
-  uni_run bidi_run
+  uni_run bidi_run brs_split brs_tokio_read
   wt_session_of_connect wt_stream_bytes wt_expect_uni wt_expect_bidi WT_BIDI_SIGNAL WT_UNI_TYPE.
